@@ -216,6 +216,22 @@ class ConstFold:
             d = single_def(self.fi, e.id)
             if d is not None:
                 return self.ev(d[1])
+            # several definitions that all fold to the same constant (e.g. the crop's directory taken from the crop or from the
+            # working directory of a worker started inside it)
+            defs_ = [v for _, v in assignments_to(self.fi, e.id)]
+            if len(defs_) > 1 and all(v is not None for v in defs_) and not getattr(self, "_multi", False):
+                self._multi = True
+                try:
+                    vals_ = []
+                    for v in defs_:
+                        try:
+                            vals_.append(self.ev(v))
+                        except AnalysisError:
+                            vals_.append(NotImplemented)
+                finally:
+                    self._multi = False
+                if vals_ and all(isinstance(x, str) for x in vals_) and len(set(vals_)) == 1:
+                    return vals_[0]
             # a, b, c = helper(...)  : component of a folded tuple
             for n in walk_shallow(self.fi.node):
                 if isinstance(n, ast.Assign) and len(n.targets) == 1 and isinstance(n.targets[0], (ast.Tuple, ast.List)):
@@ -303,6 +319,9 @@ class ConstFold:
             nm = callee_name(self.ctx, self.fi, e)
             if nm in ("os.getpid", "threading.get_ident"):
                 return 4242
+            if nm == "os.getcwd" and self.fi.qualname.endswith(".grow") and self.fi.cls is None:
+                # a worker started inside the crop's folder (grow(batch) without a crop object): the working directory *is* the crop's location
+                return LOCATION_STANDIN
             if nm in ("uuid.uuid4", "uuid.uuid1"):
                 return "01234567-89ab-cdef-0123-456789abcdef"
             if nm == "secrets.token_hex":
@@ -690,3 +709,17 @@ def store_polarity(fi, param, target, cfg=None):
                             hit = True
         out.append(hit)
     return tuple(out)
+
+
+
+def role_rename(f, discovered, role):
+    """Give the local that plays `role` its canonical name in the analysis' own copy of the tree (texts are then compared
+    against canonical names); a clash with another use of the canonical name is an AnalysisError."""
+    if discovered == role:
+        return
+    for x in ast.walk(f.node):
+        if isinstance(x, ast.Name) and x.id == role:
+            raise AnalysisError("idiom changed: `%s` names something else than the %s in %s" % (role, role, f.name))
+    for x in ast.walk(f.node):
+        if isinstance(x, ast.Name) and x.id == discovered:
+            x.id = role
